@@ -260,8 +260,7 @@ def eye(config=None, legs=(), isdiag=True, **kwargs) -> Tensor:
         tens = [eye(config=config, legs=(l0, l1), isdiag=False, **kwargs)
                     for l0, l1 in zip(ulegs0, ulegs1)]
         lt = len(tens)
-        inds = [[-2 * i for i in range(lt)],
-                [-2 * i - 1 for i in range(lt)]]
+        inds = [[-i, -i - lt] for i in range(lt)]
         tmp = ncon(tens, inds)
         axes = (tuple(range(lt)), tuple(range(lt, 2 * lt)))
         return tmp.fuse_legs(axes=axes)
